@@ -506,7 +506,7 @@ func locallyGuarded(s core.BoundsSite) string {
 				}
 				g := core.AnyFact(func(f core.Fact) bool {
 					return core.CmpFact(f, func(op token.Token, a, c ssa.Value) bool {
-						return op == token.GEQ && core.IsLenOf(a, func(v ssa.Value) bool { return v == x.X }) && core.SameExpr(core.Unwrap(c), core.Unwrap(bound))
+						return op == token.GEQ && wide64(a) && core.IsLenOf(a, func(v ssa.Value) bool { return v == x.X }) && core.SameExpr(core.Unwrap(c), core.Unwrap(bound))
 					})
 				})
 				if core.InstrGuarded(x, g, nil) != nil {
@@ -553,4 +553,17 @@ func locallyGuarded(s core.BoundsSite) string {
 		}
 	}
 	return ""
+}
+
+// wide64: the value has a 64-bit (or int) type, so a length converted into it is not truncated.
+func wide64(v ssa.Value) bool {
+	bt, ok := v.Type().Underlying().(*types.Basic)
+	if !ok {
+		return false
+	}
+	switch bt.Kind() {
+	case types.Int, types.Int64, types.Uint64, types.Uint, types.Uintptr:
+		return true
+	}
+	return false
 }
